@@ -25,9 +25,11 @@ Obs(lbl, who, A) == IsA(lbl) /\ Ev.who = who /\ A /\ Adv
 SenderEv(s) ==
   \/ Obs("obs.send_begin", s, SBegin(s) /\ sk'[s] = Ev.k)
   \/ Int("send.status", s, SStatus(s) /\ (Strict => Ev.d = status))
+  \/ Int("adm.iter", s, SAdmLoad(s) \/ SAdmRetry(s))
   \/ Int("send.admit", s, SAdmit(s) /\ (Strict => (Ev.d = 1) = (spc'[s] = "admitted")))
   \/ Int("send.enq", s, SEnqueue(s))
   \/ Int("adm.release", s, SRelease(s) /\ (Strict => Ev.d = adm.cnt))
+  \/ Int("marker.iter", s, SMarkerLoad(s) \/ SMarkerRetry(s))
   \/ Int("marker.cas", s, SMarkerCas(s) /\ (Strict => (Ev.d = 1) = (spc'[s] = "markerEnq")))
   \/ Obs("obs.send_ret", s, SReturn(s) /\ sk[s] = Ev.k /\ (Ev.d = 1) = (sprev[s] = "ok"))
 
@@ -35,6 +37,7 @@ DrainerEv(d) ==
   \/ Obs("obs.drain_begin", d, DBegin(d))
   \/ Int("drain.close", d, DClose(d))
   \/ Int("drain.status", d, DStatus(d))
+  \/ Int("marker.iter", d, DMarkerLoad(d) \/ DMarkerRetry(d))
   \/ Int("marker.cas", d, DMarkerCas(d) /\ (Strict => (Ev.d = 1) = (dpc'[d] = "markerEnq")))
   \/ Obs("obs.drain_ret", d, DReturn(d))
 
@@ -74,6 +77,7 @@ Reset ==
   /\ q' = <<>> /\ rxClosed' = FALSE
   /\ spc' = [s \in Senders |-> "idle"] /\ sk' = [s \in Senders |-> 0]
   /\ sprev' = [s \in Senders |-> "none"] /\ sres' = [m \in Msg |-> "none"]
+  /\ seen' = [p \in Senders \cup Drainers |-> Adm0]
   /\ dpc' = [d \in Drainers |-> "idle"] /\ handled' = <<>> /\ cexit' = "none"
   /\ clock' = 0 /\ beginT' = [m \in Msg |-> 0] /\ endT' = [m \in Msg |-> 0] /\ drainRet' = 0
 
